@@ -1,4 +1,4 @@
-//go:build c01 || c02 || c03
+//go:build c01 || c02 || c03 || c05
 
 package main
 
